@@ -92,6 +92,11 @@ def cases(tier, seed, shard, nshards):
                             yield {"d": d, "kind": kind, "s0": s0, "second": second, "s1": s1, "third": False, "samecol": False, "order": 0}
                             if second == "foreign-where":
                                 yield {"d": d, "kind": kind, "s0": s0, "second": second, "s1": s1, "third": False, "samecol": False, "order": 1}
+                                # the outside source named by the WHERE clause is itself any shape (derived table, CTE reference, ...)
+                                for fs in SHAPES[1:]:
+                                    for order in (0, 1):
+                                        yield {"d": d, "kind": kind, "s0": s0, "second": second, "s1": s1, "third": False, "samecol": False,
+                                               "order": order, "fs": fs}
     for d in DIALECT_CLASSES:
         for second in ("from", "join", "foreign-where", "update-from"):
             for order in (0, 1):
@@ -112,7 +117,7 @@ def cases(tier, seed, shard, nshards):
         if kind in ("insert", "delete") and second not in ("none", "foreign-where"):
             second = "none"
         yield {"d": DIALECT_CLASSES[i % 6], "kind": kind, "s0": s0, "second": second, "s1": rnd.choice(SHAPES), "third": rnd.random() < 0.3,
-               "samecol": rnd.random() < 0.3, "order": rnd.randint(0, 1), "rnd": rnd.getrandbits(30)}
+               "samecol": rnd.random() < 0.3, "order": rnd.randint(0, 1), "rnd": rnd.getrandbits(30), "fs": rnd.choice(SHAPES)}
 
 
 def build(case):
@@ -173,7 +178,7 @@ def build(case):
         multi = True
     foreign = None
     if second == "foreign-where" and kind != "insert":
-        foreign = T("outer_t")
+        foreign, fq, faq, _ = make_source(Q, case.get("fs", "plain"), "outer_t")
         multi = True
 
     def F(i, clause):
@@ -237,9 +242,9 @@ def build(case):
     if kind == "update" and second == "update-from":
         multi = True
     names = {"S%d" % i: s[1] for i, s in enumerate(sources)}
-    names["FOREIGN"] = "outer_t"
+    names["FOREIGN"] = fq if foreign is not None else "outer_t"
     always = {"S%d" % i: s[2] for i, s in enumerate(sources)}
-    always["FOREIGN"] = False
+    always["FOREIGN"] = faq if foreign is not None else False
     return q, exp, multi, names, always
 
 
